@@ -8,6 +8,7 @@ import (
 	"github.com/jawher/mow.cli/internal/container"
 	"github.com/jawher/mow.cli/internal/matcher"
 	"github.com/jawher/mow.cli/internal/values"
+	"github.com/jawher/mow.cli/internal/verifhook"
 )
 
 /*
@@ -57,6 +58,7 @@ func (s *State) Prepare() {
 }
 
 func sortTransitions(s *State, visited map[*State]bool) {
+	verifhook.Point("fsm.sort")
 	if visited[s] {
 		return
 	}
@@ -70,6 +72,7 @@ func sortTransitions(s *State, visited map[*State]bool) {
 }
 
 func simplify(start, s *State, visited map[*State]bool) {
+	verifhook.Point("fsm.simplify")
 	if visited[s] {
 		return
 	}
@@ -82,6 +85,7 @@ func simplify(start, s *State, visited map[*State]bool) {
 }
 
 func (s *State) simplifySelf(start *State) bool {
+	verifhook.Point("fsm.simplifySelf")
 	for idx, tr := range s.Transitions {
 		if matcher.IsShortcut(tr.Matcher) {
 			next := tr.Next
@@ -118,6 +122,7 @@ func (s *State) has(tr *Transition) bool {
 
 // Parse tries to navigate into the FSM according to the provided args
 func (s *State) Parse(args []string) error {
+	verifhook.Point("fsm.Parse")
 	pc := matcher.NewParseContext()
 	ok := s.apply(args, pc)
 	if !ok {
@@ -133,6 +138,7 @@ func (s *State) Parse(args []string) error {
 
 func fillContainers(containers map[*container.Container][]string) error {
 	for con, vs := range containers {
+		verifhook.Point("fsm.fill")
 		if multiValued, ok := con.Value.(values.MultiValued); ok {
 			multiValued.Clear()
 		}
@@ -151,6 +157,7 @@ func fillContainers(containers map[*container.Container][]string) error {
 }
 
 func (s *State) apply(args []string, pc matcher.ParseContext) bool {
+	verifhook.Point("fsm.apply")
 	if s.Terminal && len(args) == 0 {
 		return true
 	}
